@@ -86,6 +86,35 @@ func checkC06(c *Ctx) {
 	for _, site := range p.CG().AllCallSitesOf(updater) {
 		c.Check(site.Parent() == lc.openFn, "R3", "updater-caller:"+FuncName(site.Parent()), p.InstrPos(site), "labels assigned in the open step", "position labels are reassigned outside the open step")
 	}
+	// … exactly once, after this hand's rotation, and no success exit of the open step avoids it
+	if lc.openFn != nil {
+		var sites, via []ssa.Instruction
+		for _, ci := range Calls(lc.openFn) {
+			if ci.Common().StaticCallee() == updater {
+				sites = append(sites, ci)
+			}
+			switch calleeName(ci.Common()) {
+			case "SeatManager.InitPositions", "SeatManager.RotatePositions":
+				via = append(via, ci)
+			}
+		}
+		ok, d := len(sites) == 1, fmt.Sprintf("the open step labels the players %d time(s)", len(sites))
+		if ok {
+			if !passesOneOf(sites[0], via) {
+				ok, d = false, "the players are labelled before this hand's positions were initialised / rotated"
+			}
+			_, _, okRets, _, ab := p.ExitsWithGuards(lc.openFn)
+			if ab || len(okRets) == 0 {
+				ok, d = false, "cannot enumerate the exits of the open step"
+			}
+			for _, r := range okRets {
+				if !passesOneOf(r, sites) {
+					ok, d = false, "the open step can succeed (exit at "+p.InstrPos(r)+") without labelling the players"
+				}
+			}
+		}
+		c.Check(ok, "R3", "labels-assigned-every-hand", p.Pos(lc.openFn.Pos()), "one labelling call, after the rotation, on every success path", d)
+	}
 
 	// ---------------- R1: label table from the typed AST
 	var tableFn, rotateFn *ssa.Function
